@@ -332,7 +332,8 @@ def drive(h, prog, replies, flags=(False, False), breaks=None, inspect=None, rng
 
 
 INSPECT = ["PRINT FNO(0)", "PRINT FNT(2)", "PRINT FNO(1) + FNO(0)", "PRINT FNA(FNO(0))", "PRINT FNS$(1)", "PRINT A;B;X", "PRINT 1/0", "? A$", "PRINT FNA(3)", "PRINT FNA(1/0)", "PRINT N(1)", "REM look", "PRINT (", "PRINT Z9 +",
-           "IF 1 THEN PRINT I", "PRINT Z8(3)", "PRINT Z9$(2)", "PRINT \"x\" + 1", "IF 0 THEN PRINT 1 ELSE PRINT J", "PRINT ABS(-K)", "PRINT FNR(1)", "PRINT FNA(FNR(2))"]
+           "IF 1 THEN PRINT I", "PRINT Z8(3)", "PRINT Z9$(2)", "PRINT \"x\" + 1", "IF 0 THEN PRINT 1 ELSE PRINT J", "PRINT ABS(-K)", "PRINT FNR(1)", "PRINT FNA(FNR(2))",
+           "DEF FNA(X) = 99", "DEF FNO(X) = 7", "DEF FNQ(W) = W"]
 
 
 # programs whose continuation is sensitive to anything an inspection might leave behind: a function frame (the
@@ -340,8 +341,12 @@ INSPECT = ["PRINT FNO(0)", "PRINT FNT(2)", "PRINT FNO(1) + FNO(0)", "PRINT FNA(F
 C07_FIXED = [
     ["10 X = 5", "20 GOSUB 100", "30 PRINT \"BACK\" X", "40 FOR I = 1 TO 2", "50 READ D : PRINT D X", "60 NEXT I", "70 END",
      "100 PRINT \"X IS\" X", "110 X = X + 1", "120 RETURN", "130 DATA 7, 8"],
+    # the continuation calls the program's functions: a DEF typed at the prompt fails (ILLEGAL DIRECT) and must leave them
+    # alone (missed seeded change C07-mut10: the failing DEF had already taken the old definition out of the table)
+    ["10 PRINT \"ONE\"", "20 PRINT FNA(2)", "30 PRINT FNI(5) ; FNO(1)", "40 PRINT \"DONE\""],
 ]
-C07_FIXED_INSPECT = [["PRINT FNR(1)"], ["PRINT FNR(1)", "PRINT FNO(0)"], ["PRINT FNA(FNR(2))"], ["PRINT X"]]
+C07_FIXED_INSPECT = [["PRINT FNR(1)"], ["PRINT FNR(1)", "PRINT FNO(0)"], ["PRINT FNA(FNR(2))"], ["PRINT X"],
+                     ["DEF FNA(X) = 99"], ["DEF FNI(Y) = 1", "DEF FNO(X) = 2 : PRINT 3"]]
 
 
 def run_c07(chk):
@@ -617,7 +622,7 @@ def run_c09(chk):
     def tokinfo(text):
         if text not in ntok_cache:
             toks, _, _ = parse_tok_resp(h.cmd("tok", 0, esc(text.encode())))
-            ntok_cache[text] = (len(toks or []), sum(1 for t in (toks or []) if t[0] == "If"))
+            ntok_cache[text] = (len(toks or []), sum(1 for t in (toks or []) if t[0] == "If"), [t[0] for t in (toks or [])])
         return ntok_cache[text]
 
     def ntokens(text):
@@ -629,6 +634,8 @@ def run_c09(chk):
                       ["10 DEF F(X) = " + "X + " * 60 + "1 : PRINT 5", "20 GOTO 10"],
                       # statements that follow a DEF on its line are statements of their own (seeded change C09-mut7)
                       ["10 DEF FN A(X) = X + 1: PRINT \"ONE\": PRINT \"TWO\"", "20 DEF G(Y) = Y : Z = 1 : Z = 2 : GOTO 10"],
+                      # PRINT chains joined by `;` and `:` are separate statements, one per call (seeded change C09-mut10)
+                      ["10 PRINT \"A\";: PRINT \"B\";: ? \"C\"", "20 X = 2 : PRINT \"A\";: PRINT X;: PRINT \"C\" : GOTO 10"],
                       # a long run of comment lines: falling off a line moves to the next line, not over many (C09-mut8)
                       ["10 PRINT 1"] + [f"{20 + k} REM x" for k in range(90)] + ["900 PRINT 2"]]
     for i in range(n + len(extra_programs)):
@@ -679,6 +686,19 @@ def run_c09(chk):
                 chk.count("reads<=bound" if reads <= bound else "reads>bound")
                 if reads > bound:
                     chk.fail("turn-work-unbounded", f"line {ln} ({nt} tokens): {reads} cursor reads in one call (bound {bound})", rep)
+            # the cursor: a call that stays on its line and moves forward passes at most one statement separator, unless the
+            # line has an IF (a false IF scans to its ELSE).  Missed seeded change C09-mut10: a PRINT ending in `;` swallowed
+            # the `: PRINT ..` behind it, silently (one trace record, one Print record)
+            new_loc = row.snap().get("loc")
+            if prev_loc and new_loc and "." in prev_loc and "." in new_loc:
+                (l0, i0), (l1, i1) = prev_loc.split("."), new_loc.split(".")
+                if l0 == l1 and l0.isdigit() and int(i1) > int(i0):
+                    _, ifs0, kinds = tokinfo(lines.get(int(l0), ""))
+                    seps = sum(1 for k in kinds[int(i0):int(i1)] if k == "Colon")
+                    chk.count("cursor-advance-checked")
+                    if ifs0 == 0 and seps > 1:
+                        chk.fail("turn-many-statements", f"one call moved the cursor from {prev_loc} to {new_loc} on line {l0} "
+                                 f"({lines.get(int(l0), '')[:60]!r}): {seps} statement separators passed", rep)
             chk.count("traces/call:%d" % min(len(traces), 4))
             prev_loc = row.snap().get("loc")
         sessions.append(s.ops)
